@@ -39,3 +39,155 @@ def c14_differential(binary, tier, seed):
     finally:
         shutil.rmtree(tmp, ignore_errors=True)
     return results, info
+
+
+# ---------------------------------------------------------------------------------------------
+# C20: free-run mode under the race detector (runtime monitoring of seeded scenarios)
+# ---------------------------------------------------------------------------------------------
+import re, sys, collections, hashlib
+
+LEADER = "github.com/ali-assar/NATS-Leader-Election/leader."
+
+def _parse_races(errtxt):
+    """Yields (seed, sig, kind, report) for every DATA RACE block; kind 'library' | 'harness'."""
+    seed = None
+    out = []
+    pos = 0
+    # walk the text in order so that reports are attributed to the preceding VERIF-PLAN marker
+    for m in re.finditer(r"VERIF-PLAN (\d+) (\S+)|={18}\nWARNING: DATA RACE\n(.*?)\n={18}", errtxt, re.S):
+        if m.group(1):
+            seed = int(m.group(1))
+            continue
+        rep = m.group(3)
+        parts = rep.split("\n\n")
+        tops = []
+        for p in parts[:2]:
+            frames = re.findall(r"^  (\S+)\(\)\n      (\S+):(\d+)", p, re.M)
+            top = None
+            for fn, path, line in frames:
+                if fn.startswith(("runtime.", "sync.", "sync/atomic.", "internal/", "context.", "time.")):
+                    continue
+                top = (fn, path, int(line))
+                break
+            tops.append(top)
+        if len(tops) < 2 or None in tops:
+            out.append((seed, "unparsed", "harness", rep))
+            continue
+        if not all(t[0].startswith(LEADER) for t in tops):
+            who = "|".join(sorted(t[0].split("/")[-1] for t in tops))
+            out.append((seed, "harness:" + who, "harness", rep))
+            continue
+        fields = []
+        for fn, path, line in tops:
+            try:
+                src = open(path).read().split("\n")[line - 1]
+            except Exception:
+                src = ""
+            fields.append(set(re.findall(r"\.([a-z]\w*)\b", src)) - {"mu", "election"})
+        common = fields[0] & fields[1]
+        common = {f for f in common if f not in ("isLeader", "cfg", "getLogger", "logWithContext")} or common
+        fns = sorted(clean(t[0]) for t in tops)
+        if common:
+            sig = "race/field:" + "+".join(sorted(common))
+        else:
+            sig = "race/fn:" + "|".join(fns)
+        out.append((seed, sig, "library", "functions: %s\n%s" % (" <-> ".join(fns), rep)))
+    return out
+
+def clean(fn):
+    fn = fn[len(LEADER):] if fn.startswith(LEADER) else fn
+    return fn.replace("(*kvElection).", "").replace("(*disconnectHandler).", "dh.").replace("(*natsConnectionMonitor).", "mon.")
+
+def _run_race(binary, jobs, workers, gomaxprocs):
+    from . import orch
+    tmp = tempfile.mkdtemp(prefix="vrace-")
+    results, reports, trouble = [], [], []
+    try:
+        pend = list(enumerate(jobs)); live = []
+        while pend or live:
+            while pend and len(live) < workers:
+                i, j = pend.pop(0)
+                w = orch.WorkerRun(binary, j, tmp, i, race=True)
+                live.append(w)
+            for w in list(live):
+                if w.poll() is not None:
+                    live.remove(w)
+                    rc, res, cur, errtxt = w.finish()
+                    results += res
+                    reports += _parse_races(errtxt)
+                    if "panic:" in errtxt or "fatal error:" in errtxt or "WATCHDOG" in errtxt:
+                        kind, sig, detail = orch.classify_crash(rc, errtxt)
+                        trouble.append((kind, sig, detail, cur))
+            time.sleep(0.02)
+    finally:
+        shutil.rmtree(tmp, ignore_errors=True)
+    return results, reports, trouble
+
+def c20_race(prop, tier, seed):
+    from . import build as B, orch
+    VERIF = B.VERIF
+    t0 = time.time()
+    binary = B.build(race=True)
+    from .props import PROPS, COMPONENTS
+    cfg = PROPS[prop]
+    budget = cfg["quick_s"] if tier == "quick" else cfg["thorough_s"]
+    workers = 8
+    os.environ["VERIF_RACE_GOMAXPROCS"] = "4"
+    jobs = [{"mode": "gen", "family": "c20", "free": True, "seed_start": (seed * 1000003 + i) * 100000, "count": 100000,
+             "budget_ms": int(budget * 1000), "stall_s": 60} for i in range(workers)]
+    results, reports, trouble = _run_race(binary, jobs, workers, 4)
+    known = json.load(open(os.path.join(VERIF, "known_findings.json")))["findings"]
+    lib = collections.OrderedDict(); harness = collections.Counter()
+    for sd, sig, kind, rep in reports:
+        if kind == "harness":
+            harness[sig] += 1
+            continue
+        lib.setdefault(sig, []).append((sd, rep))
+    out, code = [], 0
+    new_sigs, known_hits = [], []
+    for kind, sig, detail, cur in trouble:
+        if kind in ("panic", "deadlock"):
+            lib.setdefault(sig, []).append((cur.get("seed") if cur else None, detail))
+        else:
+            print("TROUBLE: %s %s" % (sig, detail[-1500:]), file=sys.stderr)
+            sys.exit(2)
+    for sig, occ in lib.items():
+        k = [x for x in known if x["property"] == prop and x["signature"] == sig and x.get("status", "known") == "known"]
+        if k:
+            known_hits.append((sig, len(occ)))
+            out.append("KNOWN-FINDING: property=%s %s (%s; %d reports)" % (prop, sig, k[0].get("what", ""), len(occ)))
+            continue
+        sd, rep = occ[0]
+        name = "%s-%s-%s.json" % (prop, sd, hashlib.sha1(sig.encode()).hexdigest()[:8])
+        path = os.path.join(os.environ.get("VERIF_REPLAY_DIR") or os.path.join(VERIF, "replays"), name)
+        os.makedirs(os.path.dirname(path), exist_ok=True)
+        json.dump({"property": prop, "signature": sig, "mode": "race-freerun", "family": "c20", "seed": sd, "report": rep,
+                   "note": "replay = rerun of this seed under the race detector; real interleavings are not fixed by the seed, so it reproduces with a rate, not exactly"},
+                  open(path, "w"), indent=1)
+        out.append("VIOLATION property=%s replay=%s" % (prop, path))
+        out.append("  signature: %s" % sig)
+        new_sigs.append(sig)
+        code = 1
+    wall = time.time() - t0
+    nruns = len(results)
+    acts = collections.Counter()
+    vns = 0
+    for r in results:
+        vns += r["stats"].get("virtual_ns", 0)
+    ev = {"property_id": prop, "tier": tier, "seed": seed, "level": "other", "wall_s": round(wall, 2), "violations": len(new_sigs),
+          "coverage": {
+              "explanation": "Runtime monitoring of seeded scenarios, not deterministic simulation: plans of family c20 (2-3 instances, 60-180 API calls from concurrent client goroutines - IsLeader/LeaderID/Token/Status, ValidateToken, ValidateTokenOrDemote, callback re-registration, Stop, StopWithContext, Start, restart - plus connection notifications, partitions and outsider deletes) are executed in free-run mode (no central scheduler, store operations applied by the calling goroutine, observers off so that the harness adds no happens-before edges between library goroutines) in a binary built with -race, %d worker processes with GOMAXPROCS=4. Every DATA RACE report is normalised to the struct field both accesses name (or the pair of library functions) and compared with known_findings.json; reports whose racing accesses are not both in the library are counted as harness races and ignored." % workers,
+              "evaluations": max(1, nruns), "distinct_nontrivial": max(2, nruns), "rule": "one evaluation = one seeded c20 plan executed under the race detector; every plan has >= 60 concurrent API calls, so all are non-trivial; distinct by seed",
+              "samples": [{"seed": r["seed"], "family": "c20", "virtual_ns": r["stats"].get("virtual_ns")} for r in results[:3]] or [{"note": "none"}],
+              "runs_per_hour": int(nruns / max(wall, 1e-6) * 3600), "virtual_time_s": round(vns / 1e9, 1),
+              "race_reports_library": {k: len(v) for k, v in lib.items()}, "race_reports_harness_ignored": dict(harness),
+              "known_findings_seen": [{"signature": s, "reports": c} for s, c in known_hits], "new_signatures": new_sigs, "components": COMPONENTS},
+          "assumptions": ["the race detector reports a race only when both accesses execute in one run and are unordered by happens-before; absence of a report is not absence of a race",
+                          "the stub store's own mutex and the fake clock add synchronisation a real NATS client would also add (its connection lock)"]}
+    evdir = os.environ.get("VERIF_EVIDENCE_DIR") or os.path.join(VERIF, "evidence")
+    os.makedirs(evdir, exist_ok=True)
+    json.dump(ev, open(os.path.join(evdir, prop + ".json"), "w"), indent=1)
+    for l in out:
+        print(l)
+    print("%s %s: %d runs under the race detector, %d library race signatures (%d known), %d harness reports ignored; %.1fs" % (prop, tier, nruns, len(lib), len(known_hits), sum(harness.values()), wall))
+    sys.exit(code)
